@@ -463,7 +463,7 @@ func init() {
 			Panic:  "inconclusive"},
 		{Name: "cli/map-order-schedules", Harness: ".:HarnessCLIDeterminism", Layer: "L3", MapOrd: 4, SameEmits: true,
 			Desc:   "main.go's Run closure (flag variables set directly; stringSliceToStringMap, allKeys, the mapping loop, generator.New, DoFile through the real cached/multi/file loaders and the real JSON parser on a virtual file system, the Sources loop with MkdirAll/OpenFile/Write, os.Exit) executed under every iteration order of every map the CLI or the generator ranges over: eight flag/argument scenarios (two ids with different sets of mapping flags; no mapping; package+output under one key; two spellings of one schema id in different and in the same flag map; two schemas fully mapped; external $ref with one default file; one schema to a file and one to stdout) must each give ONE exit status, ONE stdout and ONE set of files",
-			Bounds: "eight scenarios over two small schema files; maps with <= 4 entries; cobra's flag parsing is outside (flag variables are set directly); schedules are enumerated by forking (no solver query is needed: all data is concrete)",
+			Bounds: "nine scenarios over small schema files (one with an ordered --resolve-extension list whose entries both apply); maps with <= 4 entries; cobra's flag parsing is outside (flag variables are set directly); schedules are enumerated by forking (no solver query is needed: all data is concrete)",
 			Panic:  "inconclusive"},
 	}})
 	reg(&Property{
